@@ -43,7 +43,7 @@ var vTimestamps = []tsVal{{1700000000, 0}, {1700000000, 123000000}, {1700000000,
 
 type dateVal struct{ y, m, d int32 }
 
-var vDates = []dateVal{{2024, 2, 29}, {1, 1, 1}, {9999, 12, 31}, {1999, 12, 31}, {33, 1, 2}, {987, 10, 5}}
+var vDates = []dateVal{{2024, 2, 29}, {2000, 2, 29}, {1600, 2, 29}, {2400, 2, 29}, {1900, 2, 28}, {2100, 3, 1}, {4, 2, 29}, {1, 1, 1}, {9999, 12, 31}, {1999, 12, 31}, {33, 1, 2}, {987, 10, 5}, {2023, 4, 30}, {2023, 1, 31}}
 var vDecimals = []string{"1", "-1", "1.50", "0.001", "-123456789012345678901234567890.123456789", "100", "0", "0.0", "-0.5", "007.10"}
 
 type msgGen struct {
@@ -347,6 +347,17 @@ func (g *msgGen) message(full string, depth int) *dynamicpb.Message {
 // strings, set-but-empty flattened sub-messages are cleared and Any values are
 // replaced by a canonical form (type name + deterministic proto bytes of the
 // decoded inner message, obtained through decodeAny).
+// normKeepEmptyFlatten: set while normalising what the decoder returned. A set-but-empty flattened child cannot be
+// told from an absent one in JSON, so it is dropped from the *expected* message; the decoder, however, has no
+// business creating one that the document gives it no member for (not even a null one).
+var normKeepEmptyFlatten bool
+
+func normObserved(model *tModel, m protoreflect.Message, decodeAny func(typeName string, protoBytes, j5json []byte) (proto.Message, error)) (protoreflect.Message, error) {
+	normKeepEmptyFlatten = true
+	defer func() { normKeepEmptyFlatten = false }()
+	return normMessage(model, m, decodeAny)
+}
+
 func normMessage(model *tModel, m protoreflect.Message, decodeAny func(typeName string, protoBytes, j5json []byte) (proto.Message, error)) (protoreflect.Message, error) {
 	// re-materialise as a purely dynamic message: a decoded message may hold
 	// generated well-known-type messages (timestamppb) inside dynamic parents,
@@ -444,7 +455,7 @@ func normInPlace(model *tModel, m protoreflect.Message, decodeAny func(string, [
 				if err := normValue(model, tf, fd, m.Mutable(fd), decodeAny); err != nil {
 					return err
 				}
-				if tf.Flatten && isEmptyMessage(m.Get(fd).Message()) {
+				if tf.Flatten && isEmptyMessage(m.Get(fd).Message()) && !normKeepEmptyFlatten {
 					m.Clear(fd)
 				}
 			}
